@@ -217,7 +217,7 @@ def parseTok (tok : String) : Option Tok :=
 
 -- DRIVER: c14 => XknxVerif.CEMIHandler.handle
 /-- `route <code> <g|b|o|f> <tpdu0> <p|s|n>` → outcome string;
-`monitor <timeout µs> <token>…` → `accept` | `reject <index> <token>` -/
+`monitor <token>…` → `accept` | `reject <index> <token>` -/
 def handle : List String → String
   | ["route", c, d, tp, p] =>
     match c.toNat?, parseDst d, tp.toNat?, parsePay p with
@@ -226,13 +226,14 @@ def handle : List String → String
         (route code g z o tpdu0 pay).render
       else "bad-op"
     | _, _, _, _ => "bad-op"
-  | "monitor" :: tmo :: toks =>
-    match tmo.toNat?, toks.mapM parseTok with
-    | some T, some l =>
-      match firstReject { timeout := T } l 0 with
+  | "monitor" :: toks =>
+    match toks.mapM parseTok with
+    | some l =>
+      -- the timeout is the declared REQUEST_TO_CONFIRMATION_TIMEOUT (regenerated table), in µs
+      match firstReject { timeout := CemiCodes.requestToConfirmationTimeout * 1000000 } l 0 with
       | none => "accept"
       | some i => s!"reject {i} {toks.getD i "?"}"
-    | _, _ => "bad-token " ++ ((toks.find? fun t => (parseTok t).isNone).getD "?")
+    | none => "bad-token " ++ ((toks.find? fun t => (parseTok t).isNone).getD "?")
   | _ => "bad-op"
 
 end XknxVerif.CEMIHandler
